@@ -302,9 +302,19 @@ def run_sharded(pid, tier, seed, nshards, shard_timeout):
     try:
         for i in range(nshards):
             frag = os.path.join(tmp, 'frag%d.json' % i)
-            cmd = [sys.executable, '-m', 'vf.cli', pid, '--tier', tier,
-                   '--shard', '%d/%d' % (i, nshards), '--frag', frag]
+            # environment matrix: the shards of a check do not all run in the
+            # same kind of interpreter.  Odd shards are started with -O
+            # (assert statements compiled away), shards 2, 3 (mod 4) run with
+            # the application's root logger at DEBUG.  Which cases land in
+            # which shard changes with the seed.  VERIF_ENV_MATRIX=0 switches
+            # this off (all shards plain).
+            matrix = os.environ.get('VERIF_ENV_MATRIX', '1') != '0'
+            flags = ['-O'] if matrix and i % 2 == 1 else []
+            cmd = [sys.executable] + flags + [
+                '-m', 'vf.cli', pid, '--tier', tier,
+                '--shard', '%d/%d' % (i, nshards), '--frag', frag]
             env = dict(os.environ, VERIF_SEED=str(seed))
+            env['VERIF_LOG_DEBUG'] = '1' if matrix and i % 4 >= 2 else '0'
             log = open(os.path.join(tmp, 'log%d.txt' % i), 'w+')
             procs.append((i, frag, log, subprocess.Popen(
                 cmd, cwd=VERIF_DIR, env=env, stdout=log,
